@@ -81,7 +81,7 @@ type c15gen struct {
 
 var c15Texts = []string{
 	"", " ", " note", " TODO: fix", " x = 1;", " let a = b", " if (a) { b }", " }", " {", " )", " ;", " \"quoted\"", " 'single", " `tick", " \"unclosed",
-	" // nested", "//", "/", "/ slash", " a // b // c", " return", " function f() {", " é✓ unicode", " \\n \\\\", " */ /*", " <!-- -->", " a\\", " 100%", " #!~^?|&", " else",
+	" // nested", "//", "/", "/ slash", " a // b // c", " return", " function f() {", " é✓ unicode", " déjà", " Å", "谢谢你", " смех", " \\n \\\\", " */ /*", " <!-- -->", " a\\", " 100%", " #!~^?|&", " else",
 }
 
 func (g *c15gen) text() string {
